@@ -80,25 +80,28 @@ func FuncKeys(p *Program) []string {
 }
 
 type inliner struct {
-	p         *Program
-	pk        *packages.Package
-	info      *types.Info
-	helpers   map[types.Object]*ast.FuncDecl // new helpers of this package: functions, methods and closures bound once to a local
-	file      *ast.File                      // file being rewritten
-	n         int                            // fresh-name counter
-	calls     int                            // expansions done
-	busy      map[*ast.FuncDecl]bool         // recursion guard
-	needImp   map[string]string              // local name -> path required in the current file
-	failed    string
-	frames    []map[types.Object]ast.Expr // parameter/receiver/named result -> argument template, innermost last
-	clash     []string                    // names of the pending expansion's targets that the helper also declares
-	expanded  map[types.Object]int
-	isClosure map[*ast.FuncDecl]bool
-	free      map[*ast.FuncDecl]map[string]types.Object // closure -> captured variables by name
-	doneIdent map[*ast.Ident]bool                       // function identifiers of the calls that were expanded
-	packs     map[ast.Expr][]ast.Expr                   // slice-literal template of a variadic parameter -> the caller's extra arguments
-	deferHelpers map[types.Object]*ast.FuncDecl         // new helpers with defers and no results: expandable where the call ends a function body
+	p            *Program
+	pk           *packages.Package
+	info         *types.Info
+	helpers      map[types.Object]*ast.FuncDecl // new helpers of this package: functions, methods and closures bound once to a local
+	file         *ast.File                      // file being rewritten
+	n            int                            // fresh-name counter
+	calls        int                            // expansions done
+	busy         map[*ast.FuncDecl]bool         // recursion guard
+	needImp      map[string]string              // local name -> path required in the current file
+	failed       string
+	frames       []map[types.Object]ast.Expr // parameter/receiver/named result -> argument template, innermost last
+	clash        []string                    // names of the pending expansion's targets that the helper also declares
+	expanded     map[types.Object]int
+	isClosure    map[*ast.FuncDecl]bool
+	free         map[*ast.FuncDecl]map[string]types.Object // closure -> captured variables by name
+	doneIdent    map[*ast.Ident]bool                       // function identifiers of the calls that were expanded
+	packs        map[ast.Expr][]ast.Expr                   // slice-literal template of a variadic parameter -> the caller's extra arguments
+	deferHelpers map[types.Object]*ast.FuncDecl            // new helpers with defers and no results: expandable where the call ends a function body
 	lastOfBody   map[ast.Stmt]bool
+	labelHelpers map[types.Object]*ast.FuncDecl // new helpers with labels/gotos that are referred to once: expandable in place of `return h(…)`
+	lastPre      int                            // number of leading binding statements in the result of the last inlineBodyR
+	forceBind    bool                           // bind every non-constant argument to a local (the call is deferred: its arguments are evaluated now)
 }
 
 // inlineNewHelpers returns rewritten sources for the files in which a call of a
@@ -147,7 +150,7 @@ func inlineNewHelpers(p *Program) (map[string][]byte, []string) {
 				}
 			}
 		}
-		if len(in.helpers) == 0 && len(in.deferHelpers) == 0 {
+		if len(in.helpers) == 0 && len(in.deferHelpers) == 0 && len(in.labelHelpers) == 0 {
 			continue
 		}
 		type built struct {
@@ -428,6 +431,7 @@ func (in *inliner) eligible(fd *ast.FuncDecl, fo types.Object) bool {
 	ok := true
 	n := 0
 	hasDefer := false
+	hasLabel := false
 	lits := map[*ast.FuncLit]bool{}
 	inLit := func(m ast.Node) bool {
 		for l := range lits {
@@ -447,11 +451,11 @@ func (in *inliner) eligible(fd *ast.FuncDecl, fo types.Object) bool {
 			}
 		case *ast.LabeledStmt:
 			if !inLit(x) {
-				ok = false
+				hasLabel = true
 			}
 		case *ast.BranchStmt:
 			if (x.Tok == token.GOTO || x.Label != nil) && !inLit(x) {
-				ok = false
+				hasLabel = true
 			}
 		case *ast.CallExpr:
 			if id, isId := x.Fun.(*ast.Ident); isId && id.Name == "recover" && !inLit(x) {
@@ -469,6 +473,29 @@ func (in *inliner) eligible(fd *ast.FuncDecl, fo types.Object) bool {
 		return ok
 	})
 	if n > 120 {
+		return false
+	}
+	if ok && hasLabel && !hasDefer {
+		// labels and gotos stay valid when the body is written once, as it is, in place of
+		// `return h(…)`: a helper that is referred to exactly once
+		refs := 0
+		for _, f := range in.pk.Syntax {
+			ast.Inspect(f, func(m ast.Node) bool {
+				if id, isId := m.(*ast.Ident); isId && in.info.Uses[id] == types.Object(fo) {
+					refs++
+				}
+				return true
+			})
+		}
+		if refs == 1 {
+			if in.labelHelpers == nil {
+				in.labelHelpers = map[types.Object]*ast.FuncDecl{}
+			}
+			in.labelHelpers[fo] = fd
+		}
+		return false
+	}
+	if hasLabel {
 		return false
 	}
 	if ok && hasDefer {
@@ -1111,11 +1138,43 @@ func (in *inliner) one(s ast.Stmt) []ast.Stmt {
 				}
 			}
 		}
+	case *ast.DeferStmt:
+		// `defer h(a)` is `{ a' := a; defer func() { <body of h with a'> }() }`: the
+		// arguments are evaluated where the defer statement stands, the body runs later
+		if call, fd := in.helperCall(v.Call); call != nil && !in.isClosure[fd] && (fd.Type.Results == nil || len(fd.Type.Results.List) == 0) && len(in.frames) == 0 {
+			if sig, _ := in.info.Defs[fd.Name].Type().(*types.Signature); sig != nil && !sig.Variadic() {
+				in.forceBind = true
+				stmts := in.inlineBody(fd, call, nil, false)
+				in.forceBind = false
+				if stmts != nil && in.lastPre <= len(stmts) {
+					pre, body := stmts[:in.lastPre], stmts[in.lastPre:]
+					lit := &ast.FuncLit{Type: &ast.FuncType{Params: &ast.FieldList{}}, Body: &ast.BlockStmt{List: body}}
+					out := append(append([]ast.Stmt{}, pre...), &ast.DeferStmt{Call: &ast.CallExpr{Fun: lit}})
+					return []ast.Stmt{&ast.BlockStmt{List: out}}
+				}
+			}
+		}
 	case *ast.ReturnStmt:
 		if len(v.Results) == 1 {
 			if call, fd := in.helperCall(v.Results[0]); call != nil {
 				if body := in.inlineBody(fd, call, nil, true); body != nil {
 					return []ast.Stmt{&ast.BlockStmt{List: body}}
+				}
+			}
+			if call, isCall := ast.Unparen(v.Results[0]).(*ast.CallExpr); isCall && len(in.labelHelpers) > 0 && len(in.frames) == 0 {
+				var fo types.Object
+				switch f := ast.Unparen(call.Fun).(type) {
+				case *ast.Ident:
+					fo = in.info.Uses[f]
+				case *ast.SelectorExpr:
+					if sel, ok := in.info.Selections[f]; ok && sel.Kind() == types.MethodVal {
+						fo = sel.Obj()
+					}
+				}
+				if fd := in.labelHelpers[fo]; fd != nil && !in.busy[fd] {
+					if body := in.inlineBody(fd, call, nil, true); body != nil {
+						return []ast.Stmt{&ast.BlockStmt{List: body}}
+					}
 				}
 			}
 		}
@@ -1738,7 +1797,13 @@ func (in *inliner) bind(fd *ast.FuncDecl, call *ast.CallExpr, r repl, exprOnly b
 		if tv, ok := in.info.Types[argSrc]; ok && tv.IsNil() {
 			isNilArg = true // an untyped nil is not written in place of the parameter (`nil(x)`, `nil != nil`)
 		}
-		if in.stable(argSrc) && !in.assigned(fd, obj) && !isNilArg {
+		forced := false
+		if in.forceBind {
+			if tv, ok := in.info.Types[argSrc]; !ok || tv.Value == nil {
+				forced = true
+			}
+		}
+		if in.stable(argSrc) && !in.assigned(fd, obj) && !isNilArg && !forced {
 			for n := range free {
 				if names[n] {
 					in.renameLocals(fd, n, fr) // the helper's own local of that name gets another name
@@ -2128,12 +2193,14 @@ func (in *inliner) inlineBodyR(fd *ast.FuncDecl, call *ast.CallExpr, targets []a
 		return []ast.Stmt{&ast.AssignStmt{Lhs: l, Tok: token.ASSIGN, Rhs: res}}
 	}
 	if out, ok := tailify(body, leaf); ok {
+		in.lastPre = len(pre)
 		return append(pre, out...)
 	}
 	if tail {
 		// every path of the helper returns and its returns are the caller's: the
 		// body stands as a block (no one-trip loop is needed, and the block keeps
 		// the enclosing function's last statement a terminating one)
+		in.lastPre = len(pre)
 		return append(pre, &ast.BlockStmt{List: in.breakify(body, leaf, "")})
 	}
 	// returns inside loops or in the middle of branches: a labelled one-trip loop
@@ -2143,8 +2210,10 @@ func (in *inliner) inlineBodyR(fd *ast.FuncDecl, call *ast.CallExpr, targets []a
 	if tail {
 		// every path of the helper returns; the loop never falls through
 		lb = lb[:len(lb)-1]
+		in.lastPre = len(pre)
 		return append(pre, &ast.LabeledStmt{Label: ast.NewIdent(label), Stmt: &ast.ForStmt{Body: &ast.BlockStmt{List: append(lb, &ast.BranchStmt{Tok: token.BREAK, Label: ast.NewIdent(label)})}}})
 	}
+	in.lastPre = len(pre)
 	return append(pre, &ast.LabeledStmt{Label: ast.NewIdent(label), Stmt: &ast.ForStmt{Body: &ast.BlockStmt{List: lb}}})
 }
 
